@@ -14,8 +14,7 @@ returns the value itself, so the statements project with `Option.map (·.value)`
 namespace BarterModel.KernelsAgree
 open BarterModel
 
--- the proofs carry simp lemmas for several equivalent spellings of the source (`x == ZERO`, `ZERO == x`,
--- `x.is_zero()`); whichever the current source does not use is unused
+-- the proofs carry simp lemmas for constants the current source may not mention
 set_option linter.unusedSimpArgs false
 
 /-- `Decimal::abs` of the translator's prelude = the model's `TearSheet.ratAbs`. -/
@@ -34,28 +33,36 @@ theorem ratAbs_eq_zero (x : Rat) : TearSheet.ratAbs x = 0 ↔ x = 0 := by
 /-- the source may spell a zero test `ZERO == x`. -/
 theorem zero_eq_iff (x : Rat) : 0 = x ↔ x = 0 := eq_comm
 
+/-- Shape-independent: unfold *everything generated for the group* (`gen_metric`: the listed kernels and whatever
+auxiliary functions the translator found by lookup, under whatever names), the model's definitions and the prelude's
+`checked_div`, then let `grind` decide by cases on the DATA (which of the arguments are zero, the sign under `abs`).
+Nothing depends on how the source spells the zero tests (`x == ZERO`, `ZERO == x`, `x.is_zero()`), on early `return`
+vs. `if`/`else` chains, or on the order of the guards. -/
+local macro "metric_agree" : tactic => `(tactic|
+  first
+  | rfl
+  | (simp only [gen_metric, Generated.Decimal.checked_div, TearSheet.calculatePnlReturn, TearSheet.WinRate.calculate,
+      TearSheet.ProfitFactor.calculate, abs_agrees_ratAbs, decimal_bounds_agree.1, decimal_bounds_agree.2]; done)
+  | (simp only [gen_metric, Generated.Decimal.checked_div, TearSheet.calculatePnlReturn, TearSheet.WinRate.calculate,
+      TearSheet.ProfitFactor.calculate, abs_agrees_ratAbs, decimal_bounds_agree.1, decimal_bounds_agree.2];
+     grind [ratAbs_eq_zero]))
+
 /-- `calculate_pnl_return` (source) = `TearSheet.calculatePnlReturn` (model). -/
 theorem calculate_pnl_return_agrees (pnlRealised priceEntryAverage quantityAbsMax : Rat) :
     Generated.calculate_pnl_return pnlRealised priceEntryAverage quantityAbsMax
-      = TearSheet.calculatePnlReturn pnlRealised priceEntryAverage quantityAbsMax := by
-  simp only [Generated.calculate_pnl_return, TearSheet.calculatePnlReturn] <;> grind
+      = TearSheet.calculatePnlReturn pnlRealised priceEntryAverage quantityAbsMax := by metric_agree
 
 /-- `WinRate::calculate` (source) = `TearSheet.WinRate.calculate` (model): the source's
 `checked_div(..)?` never takes its `None` exit, because `total ≠ 0` on that branch. -/
 theorem win_rate_calculate_agrees (wins total : Rat) :
     (Generated.WinRate.calculate wins total).map (·.value) = TearSheet.WinRate.calculate wins total := by
-  unfold Generated.WinRate.calculate TearSheet.WinRate.calculate Generated.Decimal.checked_div
-  by_cases h : total = 0 <;> simp [h, abs_agrees_ratAbs, ratAbs_eq_zero, zero_eq_iff]
+  metric_agree
 
 /-- `ProfitFactor::calculate` (source) = `TearSheet.ProfitFactor.calculate` (model). -/
 theorem profit_factor_calculate_agrees (profitsGrossAbs lossesGrossAbs : Rat) :
     (Generated.ProfitFactor.calculate profitsGrossAbs lossesGrossAbs).map (·.value)
       = TearSheet.ProfitFactor.calculate profitsGrossAbs lossesGrossAbs := by
-  unfold Generated.ProfitFactor.calculate TearSheet.ProfitFactor.calculate
-    Generated.Decimal.checked_div
-  by_cases hp : profitsGrossAbs = 0 <;> by_cases hl : lossesGrossAbs = 0 <;>
-    simp [hp, hl, abs_agrees_ratAbs, ratAbs_eq_zero, decimal_bounds_agree.1, decimal_bounds_agree.2,
-      zero_eq_iff]
+  metric_agree
 
 /-- All tear-sheet kernels at once. -/
 theorem metric_kernels_agree :
